@@ -277,6 +277,72 @@ def run_case(case):
                        "chemostated_entries": int(sum(chst)), "records": int(len(t)), "cell_volume_um3": gen.cell_vols(desc["space"])[0] * 1e18}}
 
 
+def run_large(case):
+    """Large grids (more than 512 cells, up to ~1000) with a localised population: every entry that changes in one tau-leap
+    step must be changed by a channel that has positive propensity in the state BEFORE the step (all firings of a leap are
+    drawn from the pre-step state; nothing can travel two cells in one step); Gillespie steps are classified as usual."""
+    use_repo()
+    engines.install()
+    import strengths as st
+    sd, idx = case["seed"], case["idx"]
+    r = gen.rng_for(sd, "C07large", idx)
+    w, h, d = r.choice([(700, 1, 1), (30, 30, 1), (9, 9, 9), (520, 1, 1), (26, 20, 1), (64, 3, 3), (10, 10, 6)])
+    n = w * h * d
+    bc = dict(r.choice(gen.BCS))
+    hcell = 1e-6
+    desc = {"envs": ["cyt"], "species": [{"label": "A", "D": r.uniform(0.2, 2.0) * 1e-12, "density": 0.0, "chstt": False},
+                                          {"label": "B", "D": 0.0, "density": 0.0, "chstt": False}],
+            "reactions": [{"sub": {"A": 1}, "prod": {"B": 1}, "kf": r.uniform(0.1, 1.0), "kr": 0.0, "label": None}],
+            "space": {"type": "grid", "w": w, "h": h, "d": d, "cell_env": [0] * n, "cell_vol": hcell ** 3, "bc": bc},
+            "state": None, "chemostats": None, "h": hcell}
+    state = [0.0] * (2 * n)
+    hot = [r.randrange(n) for _ in range(r.randint(1, 3))] + [min(n - 1, 511), min(n - 1, 512)]
+    for c_ in hot[:r.randint(1, len(hot))]:
+        state[c_] = float(r.randint(50, 400))
+    if not any(state):
+        state[hot[0]] = 100.0
+    desc["state"] = state
+    system = gen.render_system(desc, gen.Rendering(r, molecule_state=True))
+    chst = [0] * (2 * n)
+    chs = ref.channels(desc, chst)
+    inc = {}            # entry -> channels that increase it ; dec likewise
+    dec = {}
+    for k, ch in enumerate(chs):
+        for e_, dl in ch[5].items():
+            (inc if dl > 0 else dec).setdefault(e_, []).append(k)
+    bad, counts = [], {}
+    kd = desc["species"][0]["D"] / hcell ** 2
+    dt = r.choice([0.05, 0.2]) / (6 * kd + 1.0)
+    for kind_, nst in (("tauleap", 4), ("gillespie", 150)):
+        script = simhelp.make_script(system, r, dt_si=dt, t_sample_si=[0.0], policy="on_iteration", t_max_si=1e30,
+                                     usys=("µm", "s", "molecule"), isp="none", seed=r.randrange(2 ** 31))
+        t, dd, complete, out = simhelp.run_script(kind_, script, nst)
+        X = dd.reshape(len(t), 2 * n)
+        for j in range(len(t) - 1):
+            x0, x1 = X[j], X[j + 1]
+            changed = np.nonzero(x0 != x1)[0]
+            counts["large_grid_steps_" + kind_] = counts.get("large_grid_steps_" + kind_, 0) + 1
+            if kind_ == "gillespie" and len(changed) > 2:
+                bad.append({"what": "gillespie (large grid): more than one event in a step", "changed": changed.tolist()[:6],
+                            "case": {"seed": sd, "idx": idx}, "grid": [w, h, d]})
+                break
+            x0l = x0.tolist()
+            for e_ in changed.tolist():
+                cands = inc.get(e_, []) if x1[e_] > x0[e_] else dec.get(e_, [])
+                counts["large_grid_entry_checks"] = counts.get("large_grid_entry_checks", 0) + 1
+                if not any(ref.propensity(chs[k], x0l) > 0 for k in cands):
+                    bad.append({"what": "%s (large grid): an entry changed although no channel that can change it that way has positive "
+                                        "propensity in the state before the step" % kind_, "entry": int(e_), "species": int(e_ // n),
+                                "cell": int(e_ % n), "before": float(x0[e_]), "after": float(x1[e_]), "step": j, "grid": [w, h, d], "bc": bc,
+                                "occupied_cells_before": np.nonzero(x0[:n])[0].tolist()[:12], "case": {"seed": sd, "idx": idx}})
+                    break
+            else:
+                continue
+            break
+    return {"bad": bad[:3], "counts": counts, "key": chash([w, h, d, bc, state[:0], idx]), "nontrivial": True,
+            "sample": {"grid": [w, h, d], "bc": bc, "cells": n}}
+
+
 def main():
     if len(sys.argv) > 2 and sys.argv[1] == "--replay":
         import json
@@ -370,6 +436,10 @@ def main():
     run.note("false_alarm_budget", (len(pooled) + len(hists) + per_case_looks) * stats.ALPHA)
     for need in ("ville:gillespie-wait", "pit:gillespie-wait", "pit:tauleap-tally"):
         run.require(need)
+    from vf.sandbox import run_extra as _run_extra
+    _run_extra(run, "vf.checks.c07:run_large", [{"seed": seed(), "idx": _i} for _i in range(400 if thorough else 48)], cpu_budget=120,
+               kind_prefix="")
+    run.require("large_grid_entry_checks")
     return run.finish()
 
 
